@@ -2535,11 +2535,17 @@ impl<'a> Parser<'a> {
             });
         }
 
-        // TypeScript type assertion (as)
-        if self.match_token(&TokenKind::As) {
+        // TypeScript type assertions (as / satisfies), possibly chained: `x as unknown as T`
+        loop {
+            let is_satisfies = matches!(&self.current.kind, TokenKind::Identifier(name) if name.as_str() == "satisfies")
+                && !self.lexer.had_newline_before();
+            if !is_satisfies && !self.check(&TokenKind::As) {
+                break;
+            }
+            self.advance();
             // Handle "as const" - const assertion (TypeScript 3.4+)
             // This is a compile-time feature; at runtime we just return the value unchanged
-            if self.match_token(&TokenKind::Const) {
+            if !is_satisfies && self.match_token(&TokenKind::Const) {
                 // "as const" is a no-op at runtime - the value stays the same
                 // Just continue without wrapping in TypeAssertion
             } else {
